@@ -18,6 +18,7 @@ struct ExpEvent
     bool fetch = false;   // value to be fetched through the named accessor
     Req ra;               // how to fetch it
     u64 size = 0;
+    long long cursor = -1; // where the cursor must be when the callback runs (message / group / entry callbacks)
     // enum value / set choice sub-events refer to the parent's fetched value
     int parent = -1;
     int valueset = -1;
@@ -29,6 +30,14 @@ struct VisitModel
     const SchemaShape& sh;
     const Frame& f;
     std::vector<ExpEvent> ev;
+    // the events of visit_children(entry) are a slice of the full traversal
+    struct Sub
+    {
+        std::vector<PathStep> path;
+        std::size_t begin, end;
+        u64 end_off;
+    };
+    std::vector<Sub> subs;
 
     void value_subevents(const MemberShape& m, int parent_idx)
     {
@@ -110,7 +119,11 @@ struct VisitModel
             e.ticks = true;
             e.has_addr = true;
             e.addr = (long long)g.start;
+            // the group accessor was called with the plain cursor: it now sits at the end of the dimension header
+            e.cursor = (long long)(g.start + sh.dims[(std::size_t)lv.groups[gi].dim].size);
             ev.push_back(e);
+            const LevelShape& cl = sh.levels[(std::size_t)lv.groups[gi].level];
+            const bool memberless = cl.fields.empty() && cl.groups.empty() && cl.data.empty();
             for(std::size_t ei = 0; ei < g.entries.size(); ei++)
             {
                 ExpEvent x;
@@ -119,10 +132,14 @@ struct VisitModel
                 x.ticks = true;
                 x.has_addr = true;
                 x.addr = (long long)g.entries[ei].start;
+                // entries are created from the cursor; one without members has already been stepped over
+                x.cursor = (long long)g.entries[ei].start + (memberless ? (long long)g.wire_bl : 0);
                 ev.push_back(x);
                 auto p2 = path;
                 p2.push_back({(int)gi, (u64)ei});
+                const std::size_t b = ev.size();
                 level(g.entries[ei], p2, false);
+                if(subs.size() < 6) subs.push_back({p2, b, ev.size(), g.entries[ei].end});
             }
         }
         for(std::size_t di = 0; di < lv.data.size(); di++)
@@ -146,6 +163,7 @@ struct VisitModel
         e.ticks = true;
         e.has_addr = true;
         e.addr = 0;
+        e.cursor = (long long)sh.msg_header.size; // init_cursor: right behind the header
         ev.push_back(e);
         level(f.root, {}, true);
     }
@@ -261,6 +279,11 @@ inline Result exec_c19(const Plan& plan)
             fail("value", std::string(ev_name(e.kind)) + "(" + tagname(e.tag) + ") delivered " + std::to_string(g.bits) + ", the named accessor returns " + std::to_string(fetched[i]));
             return res;
         }
+        if(e.cursor >= 0 && g.cursor_off != e.cursor)
+        {
+            fail("callback-cursor", std::string(ev_name(e.kind)) + "(" + tagname(e.tag) + ") ran with the cursor at " + std::to_string(g.cursor_off) + ", the view it was handed starts its children at " + std::to_string(e.cursor));
+            return res;
+        }
         if(e.kind == EV_DATA && g.size != e.size)
         {
             fail("value", "on_data(" + tagname(e.tag) + ") delivered a view of size " + std::to_string(g.size) + ", expected " + std::to_string(e.size));
@@ -276,6 +299,44 @@ inline Result exec_c19(const Plan& plan)
     {
         fail("end-position", "after a complete visit the cursor is at " + std::to_string(full.cursor_off) + ", message end is " + std::to_string(N));
         return res;
+    }
+    // ---- (a') visit_children called directly on group entries: the same events as the corresponding slice
+    //          of the complete traversal, cursor at the end of the entry afterwards
+    for(const auto& sub : vm.subs)
+    {
+        Req sq;
+        sq.msg = fs.msg;
+        sq.p = p;
+        sq.n = (std::size_t)N;
+        sq.target = T_LEVEL;
+        sq.sub = L_VISIT_CHILDREN;
+        sq.path = sub.path;
+        sq.stop_at = -1;
+        Res sr;
+        Outcome so = call_driver(drv, sq, sr);
+        sim::stats().count("c19.entry_visits");
+        if(so.kind != Out::DONE)
+        {
+            fail("entry-visit", "visit_children on a group entry ended with " + std::string(sim::out_name(so.kind)));
+            return res;
+        }
+        bool same = sr.events.size() == sub.end - sub.begin;
+        for(std::size_t i = 0; same && i < sr.events.size(); i++)
+        {
+            const Event& x = sr.events[i];
+            const Event& y = full.events[sub.begin + i];
+            same = x.kind == y.kind && x.tag == y.tag && x.bits == y.bits && x.addr_off == y.addr_off;
+        }
+        if(!same)
+        {
+            fail("entry-visit", "visit_children on a group entry (" + std::to_string(sr.events.size()) + " events) differs from the part of the complete traversal that covers the same entry (" + std::to_string(sub.end - sub.begin) + " events)");
+            return res;
+        }
+        if(sub.end > sub.begin && sr.cursor_off != (long long)sub.end_off)
+        {
+            fail("entry-visit", "after visit_children on a group entry the cursor is at " + std::to_string(sr.cursor_off) + ", the entry ends at " + std::to_string(sub.end_off));
+            return res;
+        }
     }
     // ---- (b) cancellation at every callback
     long long ticks = 0;
